@@ -14,9 +14,9 @@ CLAIMED = {
    technique="Coq proof relative to an explicit parser round-trip premise + unconditional proof for the fixed formats (reusing C02/C05/C09 lemmas) + differential correspondence over 8 file formats",
    design="5/C03"),
  "C08": dict(
-   text="Coq theorems: (truthful) for ALL 13 USAGE spellings and ALL pictures S?9(m)V9(n), 1<=m+n<=18, written out or in repeat notation (complete finite enumeration, lifted with forallb_forall and the completeness lemma) and all X(k)/A(k): the emitted type, contentEncoding, conversion and min/maxLength are what USAGE and PICTURE dictate, and on every VALID record the Python type of the delivered value (model decoder composed with CONVERSION, using C02's round-trip theorems) is the declared one - outside exactly characterised known-bad families, each refuted by a witness; same for the extended-vocabulary generator; (references) for ALL record trees every $ref and maxItemsDependsOn of the emitted schema has a node bearing that $anchor, every oneOf is non-empty and property names are distinct. "
+   text="Coq theorems: (truthful) for ALL 13 USAGE spellings and ALL pictures S?9(m)V9(n), 1<=m+n<=18, written out or in repeat notation (complete finite enumeration, lifted with forallb_forall and the completeness lemma) and all X(k)/A(k): the emitted type, contentEncoding, conversion and min/maxLength are what USAGE and PICTURE dictate, and on every VALID record the Python type of the delivered value (model decoder composed with CONVERSION, using C02's round-trip theorems) is the declared one - outside exactly characterised known-bad families, each refuted by a witness; same for the extended-vocabulary generator; (references, validity of structure, loadability) for ALL record trees with distinct names and well-formed REDEFINES: every $ref and maxItemsDependsOn of the emitted schema has a node bearing that $anchor, anchors are pairwise distinct, every oneOf is non-empty, property names are distinct (C08_valid_shape), and - with DEPENDING ON counters declared before their tables - the model of SchemaMaker.from_json loads the emitted schema without error and binds every $ref / maxItemsDependsOn site to the object bearing that $anchor (C08_loadable). "
         "Validity under the real 2020-12 meta-schema and loadability are decided by correspondence: Draft202012Validator.check_schema and SchemaMaker.from_json on every generated schema, plus a single-keyword-mutation stream tying the Coq validity predicate to the real validator.",
-   note="Reuses Model/Estruct.v, Model/Layout.v build, C16's conversion model. json_type tables regenerated from the source. Pairwise-distinct anchors and 'load succeeds' are checked on every observed schema but not proved. Known findings: K-repeat-not-decimal (+ext; pinned by test_7/test_issue_1), the C04 size findings seen through the schema, K-redef-in-occurs-schema, K-ref-bound-by-title.",
+   note="Reuses Model/Estruct.v, Model/Layout.v build, C16's conversion model. json_type tables regenerated from the source. The loader is a hand model of from_json tied by correspondence (bound class and $anchor of every site compared on every run); validity under the real meta-schema stays correspondence-only. Known findings: K-repeat-not-decimal (+ext; pinned by test_7/test_issue_1), the C04 size findings seen through the schema, K-redef-in-occurs-schema, K-ref-bound-by-title.",
    technique="Coq proof by complete finite enumeration + mutual induction over record trees + regenerated parameters + differential correspondence incl. the real JSON Schema validator",
    design="5/C08"),
  "C10": dict(
@@ -33,7 +33,7 @@ CLAIMED = {
    design="5/C11"),
  "C06": dict(
    text="Coq theorems for the flat family of OCCURS DEPENDING ON records (one 01 group; any number and order of fixed elementary items, counters among them, elementary ODO/OCCURS tables and one-level group tables, each counter an earlier child), ALL count vectors, ALL records whose counter bytes hold the vector: the number of elements is the counter's value, every child starts where the COBOL rules put it for THIS record's counts, an index at or beyond the count is IndexError, the record ends at its extent, and trailing bytes of the buffer do not change the layout (frame lemma). Composition with C05's buffer automaton: for EVERY buffer size and EVERY sequence of such records back to back (RECFM N) the row loop delivers record j starting exactly where record j-1 ended, with the layout of its own counts; likewise V and VB. "
-        "Nested ODO shapes are outside the theorem's family and are decided by correspondence against the same specification.",
+        "GENERAL FORM (C06_layout, Proofs/LayoutOdoP.v, extending C01's development): ODO tables - elementary or group - anywhere a non-repeated item may stand (nested non-repeated groups, sibling groups, next to REDEFINES unions), counters elementary non-repeated items outside unions and tables that come earlier: for every such description, every count vector and every record carrying it, every navigation path lands on the specification's bytes and an index at or beyond the count is IndexError. ODO inside a REDEFINES member or inside a table is outside the theorems and decided by correspondence.",
    note="Builds on Model/Layout.v (walk, nav) and Model/Recfm.v (buffer automaton) unchanged. Counters are unsigned DISPLAY digit items. Known finding K-odo-lrecl-none (set_schema with lrecl=None raises for ODO layouts although documented); the pre-fix refill is refuted for the stream too.",
    technique="Coq proof by induction over the children list (closed form of the walk) and over the record sequence (composition with the RECFM_N invariant) + sampled differential correspondence on files in RECFM N/V/VB",
    design="5/C06"),
@@ -62,8 +62,8 @@ CLAIMED = {
    technique="Coq proof by induction over line lists / joined text for the hand-modelled text layer + metamorphic differential correspondence for the clause layer",
    design="5/C12"),
  "C13": dict(
-   text="Coq theorems over ALL strings (lists of code points, any length), outside eight exactly characterised known-bad families: the decoder-side scanner either raises ValueError or sizes the picture as the number of positions the grammar denotes and the string holds no foreign character (fuel sufficiency proved); both scanners accept the same strings with the same element lists; the generator's numeric classification equals the grammar's. Each finding has a refutation witness. "
-        "PARTIAL for the decoder half of the classification agreement and for the repeat-count equivalence (size and grammar summary proved; acceptance/sign/digit fields of the expansion not). Correspondence exhaustive to length 3/4 over the picture alphabet, random, grammar-generated with injected foreign characters.",
+   text="Coq theorems over ALL strings (lists of code points, any length), outside eight exactly characterised known-bad families: the decoder-side scanner either raises ValueError or sizes the picture as the number of positions the grammar denotes and the string holds no foreign character (fuel sufficiency proved); both scanners accept the same strings with the same element lists; generator and decoder agree on the numeric-versus-text classification (C13_agree_class_full); expanding every c(n) to n copies is accepted, stays outside the known-bad families and leaves size, sign, integer and fraction digit counts and class unchanged (C13_repeat_full); the decoder's size, digit counts and class equal the grammar's (C13_decoder_summary). Each finding has a refutation witness. "
+        "Correspondence exhaustive to length 3/4 over the picture alphabet, random, grammar-generated with injected foreign characters.",
    note="Regex finditer semantics of the two picture patterns modelled by hand as a left-to-right scanner; character classes, IGNORECASE and the Unicode Nd table regenerated from the source/interpreter. IGNORECASE folding = ASCII + U+017F (checked once over all code points, assumed per run). Eight known findings (skipped characters, zero repeat, lower case, repeat notation not numeric, IndexError on no match, non-ASCII digits, zero positions, last-sign-only).",
    technique="Coq proof by induction on the string (scanner vs grammar automaton) + regenerated parameters + exhaustive-to-length-4 differential correspondence",
    design="5/C13"),
